@@ -151,6 +151,39 @@ func (li *loopInfo) invariant(v ssa.Value) bool {
 			return li.invariant(y.X)
 		case *ssa.BinOp:
 			return li.invariant(y.X) && li.invariant(y.Y)
+		case *ssa.UnOp:
+			// a field of an invariant object read in the loop (`i < len(c.topics)`): invariant when no
+			// instruction of the loop stores to a field of that name or calls anything that could
+			if fa, ok := y.X.(*ssa.FieldAddr); ok && y.Op == token.MUL && li.invariant(fa.X) {
+				_, st := ownerOfFieldBase(fa.X.Type())
+				if st == nil {
+					return false
+				}
+				name := fieldNameOf(st.Field(fa.Field))
+				for b := range li.Blocks {
+					for _, in := range b.Instrs {
+						switch z := in.(type) {
+						case *ssa.Store:
+							if fa2, ok := z.Addr.(*ssa.FieldAddr); ok {
+								if _, st2 := ownerOfFieldBase(fa2.X.Type()); st2 != nil && fieldNameOf(st2.Field(fa2.Field)) == name {
+									return false
+								}
+							}
+						case ssa.CallInstruction:
+							if g := z.Common().StaticCallee(); z.Common().IsInvoke() || g == nil || (IsOwn(g) && len(g.Blocks) > 0 && !pureLeaf(g)) {
+								if n := CalleeName(z.Common()); !strings.HasPrefix(n, "builtin:") {
+									if g == nil || IsOwn(g) {
+										return false
+									}
+								}
+							}
+						}
+					}
+				}
+				return true
+			}
+		case *ssa.FieldAddr:
+			return li.invariant(y.X)
 		}
 	}
 	return false
@@ -435,6 +468,26 @@ func checkLoopProgress(c *Ctx, fns []*ssa.Function) {
 					break
 				}
 			}
+			if !ok && isNewHelper(fn) {
+				// a loop that moved into a new helper: the reviewed row of every known function the
+				// helper now works for must cover it (same exit condition)
+				roots := knownRootsOf(fn)
+				all := len(roots) > 0
+				for _, r := range roots {
+					hit := false
+					for i, row := range c09LoopTable {
+						if row.fn == FuncKey(r) && row.exits != "" && strings.Contains(desc, row.exits) {
+							hit = true
+							used[i] = true
+							why = "reviewed (row of " + FuncKey(r) + ", whose loop moved into this helper): " + row.reason
+						}
+					}
+					if !hit {
+						all = false
+					}
+				}
+				ok = all
+			}
 			site := p.Pos(fn.Pos())
 			if len(li.Header.Instrs) > 0 {
 				site = p.InstrPos(li.Header.Instrs[len(li.Header.Instrs)-1])
@@ -529,4 +582,23 @@ func boundMethods(v ssa.Value, seen map[ssa.Value]bool) []boundMethod {
 		return out
 	}
 	return nil
+}
+
+// pureLeaf: an own function that stores nothing and calls nothing of the module.
+func pureLeaf(g *ssa.Function) bool {
+	for _, b := range g.Blocks {
+		for _, in := range b.Instrs {
+			switch x := in.(type) {
+			case *ssa.Store, *ssa.MapUpdate, *ssa.Send, *ssa.Go, *ssa.Defer:
+				return false
+			case ssa.CallInstruction:
+				if h := x.Common().StaticCallee(); x.Common().IsInvoke() || h == nil || IsOwn(h) {
+					if !strings.HasPrefix(CalleeName(x.Common()), "builtin:") {
+						return false
+					}
+				}
+			}
+		}
+	}
+	return true
 }
